@@ -820,6 +820,11 @@ example : ∃ out recs out' recs',
     C18_scale_tucker_run_ok Tk.svc1_spec (fun _ _ _ => []) (c := 3) (by norm_num) Tk.X11 [1, 1] 0 1 (some [1, 0])
       (.list [[[1]], [[1]]]) trivial (Tk.detRun11 _ _ _ _ _) h
   exact ⟨out, recs, out', recs', h, h', r2, r1, r4, r5⟩
+-- the determinacy hypothesis of the Tucker-ALS theorems (`∃! A, LeadSpec …`) is not confined to modes of extent one: for
+-- the 2 × 1 array [[3], [4]] the Gram matrix of the mode-0 unfolding is [[9, 12], [12, 16]] (eigenvalues 25 and 0), and
+-- the contract has exactly one admissible answer for one leading vector, [[3/5], [4/5]]
+example : ∃! A, Tk.LeadSpec (Tk.gramMode ⟨[2, 1], [3, 4]⟩ 0) 2 1 A := by
+  rw [Tk.gramMode_34]; exact Tk.leadSpec_34_existsUnique
 -- relabelling of HOSVD on a concrete instance, both variants: the 2 × 1 array [[3], [4]], p = [1, 0], ranks [1, 1],
 -- second mode first, and a service `Tk.eighE1` that is not even an eigen-solver (nothing is assumed about `eigh`).
 -- The run returns; hence the run on the transposed array with dimorder [0, 1] returns the relabelled Tucker tensor.
